@@ -1548,7 +1548,38 @@ def impl_dftcall(c):
     return {"vals": [cnum(v) for v in res]}
 
 
+class ImplTimeout(BaseException):
+    pass
+
+
+_TIMEOUTS = [0]
+
+
 def impl(c):
+    """the observation of the real code, under a watchdog: a call that should be lazy but reads an endless
+    Stream to its end must show as a disagreement (`OTHER:ImplTimeout`), not hang the check"""
+    import signal
+
+    def on_alarm(signum, frame):
+        raise ImplTimeout()
+    try:
+        old = signal.signal(signal.SIGALRM, on_alarm)
+    except ValueError:                          # not in the main thread: no watchdog
+        return _impl(c)
+    # generous at first; once the code under test has hung twice every further case gets a short leash, so
+    # that a tree that hangs on a whole class of inputs is still reported within the time budget
+    signal.setitimer(signal.ITIMER_REAL, 2.0 if _TIMEOUTS[0] < 2 else 0.15)
+    try:
+        return _impl(c)
+    except ImplTimeout:
+        _TIMEOUTS[0] += 1
+        return {"err": "OTHER:ImplTimeout"}
+    finally:
+        signal.setitimer(signal.ITIMER_REAL, 0)
+        signal.signal(signal.SIGALRM, old)
+
+
+def _impl(c):
     import audiolazy
     from audiolazy import ZFilter, CascadeFilter, ParallelFilter, dft
     try:
